@@ -60,18 +60,18 @@ type Hand struct {
 }
 
 type Struct struct {
-	Name     string
-	TParams  []TParam
-	Fields   []Field
-	Ann      map[string]bool // "@fp.Value", "@fp.Json", ...
-	AnnOrder []string
-	InGroup  bool     // declared inside a `type ( ... )` group
-	Doc      []string // extra doc-comment lines
-	Trailing bool     // `struct { // comment`
-	Hands    []Hand
-	Derived  string // `type Name Derived` (fields are those of the struct named Derived)
-	TypeParamsJoined bool // `[K, V any]` instead of `[K any, V any]` (all constraints equal)
-	Origin   string // provenance: seed name or "grammar"
+	Name             string
+	TParams          []TParam
+	Fields           []Field
+	Ann              map[string]bool // "@fp.Value", "@fp.Json", ...
+	AnnOrder         []string
+	InGroup          bool     // declared inside a `type ( ... )` group
+	Doc              []string // extra doc-comment lines
+	Trailing         bool     // `struct { // comment`
+	Hands            []Hand
+	Derived          string // `type Name Derived` (fields are those of the struct named Derived)
+	TypeParamsJoined bool   // `[K, V any]` instead of `[K any, V any]` (all constraints equal)
+	Origin           string // provenance: seed name or "grammar"
 }
 
 func (s *Struct) NApp() int {
@@ -207,10 +207,10 @@ func (s *Struct) Summary() string {
 
 // Pkg is one generated input package.
 type Pkg struct {
-	Name    string
-	Structs []*Struct
-	JSON    bool // C15 flavour: law test runs the JSON laws
-	Extra   string // extra verbatim declarations (seed shapes such as @fp.Deref aliases)
+	Name         string
+	Structs      []*Struct
+	JSON         bool   // C15 flavour: law test runs the JSON laws
+	Extra        string // extra verbatim declarations (seed shapes such as @fp.Deref aliases)
 	ExtraImports []string
 }
 
